@@ -204,6 +204,16 @@ func (s *QueryBuilder) prepareMatch() error {
 			if err := walk.Cypher(typedClause, bindWalk); err != nil {
 				return err
 			}
+
+		case *cypher.Set:
+			if err := walk.Cypher(typedClause, bindWalk); err != nil {
+				return err
+			}
+
+		case *cypher.Remove:
+			if err := walk.Cypher(typedClause, bindWalk); err != nil {
+				return err
+			}
 		}
 	}
 
